@@ -88,9 +88,8 @@ def step (st : Unit) (j : Json) : Unit × List String :=
       parseJWS Facts.C17.supportedAlgs Facts.C17.parseJWSCountRule Facts.C17.parseJWSVerifyMode E info
     | "dpop" =>
       -- when dpop.Parse itself tests jwx.AlgorithmFitsKey (regenerated fact) the fit is part of "verified"
-      let E : Env := { resolve := fun _ => none, embeddedKey := fun _ => some "E",
-                       verifies := fun _ _ _ => jBool v "verified" && (!Facts.C17.dpopChecksAlgFit || jBool v "fits"),
-                       verifiesSplit := fun _ _ _ => false }
+      let E : Env := { fits := fun _ _ => jBool v "fits", resolve := fun _ => none, embeddedKey := fun _ => some "E",
+                       verifies := fun _ _ _ => jBool v "verified", verifiesSplit := fun _ _ _ => false }
       dpopParse Facts.C17.supportedAlgs Facts.C17.dpopTyp E (jBool v "claimsok") info
     | "dagtx" =>
       let kf := jBool v "keyfound"
